@@ -150,6 +150,18 @@ def reference_rows(rl):
     return rows
 
 
+def _alternatives(trigs):
+    """the single alternatives of a disjunctive trigger set: an inlist over several strings counts string by string"""
+    out = set()
+    for t in trigs:
+        if isinstance(t, tuple) and t and t[0] == "inlist" and isinstance(t[1], tuple):
+            for x in t[1]:
+                out.add(("inlist", (x,)) + tuple(t[2:]))
+        else:
+            out.add(t)
+    return out
+
+
 def match_rows(facts, pm, rl, role_list, weak_out=None):
     """Compare extracted rejection rows of the given roles with R-FAULT.  Returns (matched, missing, extra)
     where each entry is (role, description, site, fnkey).
@@ -162,6 +174,7 @@ def match_rows(facts, pm, rl, role_list, weak_out=None):
     inv = {v: k for k, v in rl.items() if v}
     matched, extra = [], []
     used = set()
+    partial = {}
     for role in role_list:
         key = rl.get(role)
         if not key:
@@ -187,8 +200,9 @@ def match_rows(facts, pm, rl, role_list, weak_out=None):
             hit = None
             weak = None
             for i, r in enumerate(ref):
-                if r["role"] != role or i in used:
+                if r["role"] != role or (i in used and i not in partial):
                     continue
+                row.pop("_partial", None)
                 m = row_matches(facts, rl, inv, r, row, role_refs)
                 if m is True:
                     hit = i
@@ -196,13 +210,21 @@ def match_rows(facts, pm, rl, role_list, weak_out=None):
                 if m and weak is None:
                     weak = (i, m)
             if hit is not None:
-                used.add(hit)
+                if row.get("_partial") or hit in partial:
+                    # one alternative of a documented disjunction: the reference is covered when all of them are
+                    partial.setdefault(hit, set()).update(_alternatives(loosen(set(row.get("triggers", ())))))
+                    used.add(hit)
+                else:
+                    used.add(hit)
                 matched.append((role, describe_ref(ref[hit]), desc, row["site"], key))
             elif weak is not None:
                 if weak_out is not None:
                     weak_out.append((role, describe_ref(ref[weak[0]]), desc + "  -- only under the further condition " + weak[1], row["site"], key))
             else:
                 extra.append((role, desc, row["site"], key))
+    for i, got in partial.items():
+        if got != _alternatives(loosen(merge_inlists(set(ref[i]["triggers"])))):
+            used.discard(i)   # some alternative of the documented condition has no refusing row
     missing = [(r["role"], describe_ref(r), "", rl.get(r["role"], "")) for i, r in enumerate(ref) if i not in used]
     return matched, missing, extra
 
@@ -328,6 +350,9 @@ def benign_atom(a, hits, row, role_refs, rl):
             for t in ts:
                 if la == loosen(neg(t)):
                     return True
+                # the negation of one alternative of a documented disjunction (`x == "." | x == ".."` tested one by one)
+                if t[0] == "inlist" and a[0] == "inlist" and a[-1] is False and t[-1] is True and set(a[1]) <= set(t[1]) and loosen(tuple(a[2:-1])) == loosen(tuple(t[2:-1])):
+                    return True
     if a[0] == "callres" and a[-1] in ("Ok?", "Ok", "Some"):
         for r in role_refs:
             if r["kind"] in ("propagate", "tail") and callee_of_ref(rl, r) == a[1]:
@@ -407,8 +432,14 @@ def row_matches(facts, rl, inv, ref, row, role_refs=()):
             elif loosen(trigs) == loosen({t}):
                 hits = list(trigs)
         elif "triggers" in ref:
-            if loosen(trigs) == loosen(merge_inlists(set(ref["triggers"]))):
+            want_ = loosen(merge_inlists(set(ref["triggers"])))
+            if loosen(trigs) == want_:
                 hits = list(trigs)
+            elif trigs and _alternatives(loosen(trigs)) <= _alternatives(want_):
+                # the documented condition is a disjunction; this row refuses on some of its alternatives (the code tests
+                # them one after the other and each test has its own exit) -- match_rows collects the rows of one reference
+                hits = list(trigs)
+                row["_partial"] = True
         else:
             tk = ref["trigger_kind"]
             ok = False
